@@ -916,3 +916,127 @@ def gen_err_codes():
 
 # ---- C16 (builder) ----
 import translate_ser  # noqa  (registers SerConsts; imports translate_serops -> SerializeOps)
+
+
+# ---- C12 (builder) ----
+# ------------------------------------------------------------------ C12: formatter escape tables, serializer literals
+def _uni_symbols():
+    rel = "util/XMLUniDefs.hpp"
+    t = strip_c_comments(src(rel))
+    sym = {}
+    for m in re.finditer(r"const\s+XMLCh\s+(ch\w+)\s*=\s*(0x[0-9A-Fa-f]+|\d+)\s*;", t):
+        sym[m.group(1)] = int(m.group(2), 0)
+    if len(sym) < 90 or "chAmpersand" not in sym:
+        raise TranslateError("XMLUniDefs.hpp: character constants not found")
+    return sym
+
+def _mask_ranges(tbl, mask):
+    out = []; start = None
+    for i, v in enumerate(tbl + [0]):
+        on = i < len(tbl) and (v & mask) != 0
+        if on and start is None: start = i
+        if not on and start is not None:
+            out.append((start, i - 1)); start = None
+    return out
+
+def _lean_pairs(name, ps):
+    body = ",\n".join("  " + ", ".join("(%d, %d)" % p for p in ps[k:k+8]) for k in range(0, len(ps), 8))
+    return "def %s : List (Nat × Nat) := [\n%s]\n" % (name, body)
+
+def _zstring(text, name, rel, sym):
+    v = array_init(text, name, rel, sym)
+    if not v or v[-1] != 0 or 0 in v[:-1]:
+        raise TranslateError("%s in %s is not a single null-terminated string" % (name, rel))
+    return v[:-1]
+
+@translate.register("Escapes")
+def gen_escapes():
+    sym = _uni_symbols()
+    rel = "framework/XMLFormatter.cpp"
+    t = src(rel)
+    out = HEADER + "namespace XV.Gen.Escapes\n\n"
+    for nm in ("gAmpRef", "gAposRef", "gGTRef", "gLTRef", "gQuoteRef"):
+        out += lean_list(nm, _zstring(t, nm, rel, sym))
+    tt = strip_c_comments(t)
+    m = re.search(r"\bkEscapeCount\s*=\s*(\d+)\s*;", tt)
+    if not m:
+        raise TranslateError("kEscapeCount not found in " + rel)
+    kcount = int(m.group(1))
+    # enum EscapeFlags order (the row index of gEscapeChars) and UnRepFlags
+    h = strip_c_comments(src("framework/XMLFormatter.hpp"))
+    em = re.search(r"enum\s+EscapeFlags\s*\{(.*?)\}", h, re.S)
+    um = re.search(r"enum\s+UnRepFlags\s*\{(.*?)\}", h, re.S)
+    if not em or not um:
+        raise TranslateError("enum EscapeFlags / UnRepFlags not found in XMLFormatter.hpp")
+    enames = [p.strip().split("=")[0].strip() for p in em.group(1).split(",") if p.strip()]
+    want = ["NoEscapes", "StdEscapes", "AttrEscapes", "CharEscapes", "EscapeFlags_Count", "DefaultEscape"]
+    if enames != want:
+        raise TranslateError("enum EscapeFlags changed: %r" % enames)
+    unames = [p.strip().split("=")[0].strip() for p in um.group(1).split(",") if p.strip()]
+    if unames != ["UnRep_Fail", "UnRep_CharRef", "UnRep_Replace", "DefaultUnRep"]:
+        raise TranslateError("enum UnRepFlags changed: %r" % unames)
+    rows = array_init(t, "gEscapeChars", rel, sym) if False else None
+    mm = re.search(r"\bgEscapeChars\s*\[[^\]]*\]\s*\[[^\]]*\]\s*=\s*\{", tt)
+    if not mm:
+        raise TranslateError("gEscapeChars not found in " + rel)
+    i = mm.end(); depth = 1; j = i
+    while depth and j < len(tt):
+        if tt[j] == "{": depth += 1
+        elif tt[j] == "}": depth -= 1
+        j += 1
+    body = tt[i:j-1]
+    rws = re.findall(r"\{([^{}]*)\}", body)
+    if len(rws) != 4:
+        raise TranslateError("gEscapeChars: expected 4 rows, found %d" % len(rws))
+    out += "def kEscapeCount : Nat := %d\n" % kcount
+    names = ["escNoEscapes", "escStdEscapes", "escAttrEscapes", "escCharEscapes"]
+    for nm, rw in zip(names, rws):
+        vals = []
+        for tok in rw.split(","):
+            tok = tok.strip()
+            if not tok: continue
+            vals.append(sym[tok] if tok in sym else c_int(tok))
+        if len(vals) != kcount:
+            raise TranslateError("gEscapeChars row %s has %d entries, kEscapeCount = %d" % (nm, len(vals), kcount))
+        out += "/-- raw row of gEscapeChars (scanned up to the first 0) -/\n" + lean_list(nm, vals)
+    m = re.search(r"\bkTmpBufSize\s*=\s*([^,}\n]+)", h)
+    if not m:
+        raise TranslateError("kTmpBufSize not found")
+    try:
+        out += "def kTmpBufSize : Nat := %d\n\n" % eval(m.group(1).strip(), {"__builtins__": {}})
+    except Exception:
+        raise TranslateError("kTmpBufSize not a constant expression: " + m.group(1))
+    # serializer literals
+    rel2 = "dom/impl/DOMLSSerializerImpl.cpp"
+    t2 = src(rel2)
+    for nm in ("gEOLSeq", "gUTF8", "gEndElement", "gEndPI", "gStartPI", "gXMLDecl_VersionInfo", "gXMLDecl_EncodingDecl",
+               "gXMLDecl_SDDecl", "gXMLDecl_separator", "gXMLDecl_endtag", "gStartCDATA", "gEndCDATA", "gStartComment",
+               "gEndComment", "gStartDoctype", "gPublic", "gSystem", "gStartEntity", "gNotation"):
+        out += lean_list(nm, _zstring(t2, nm, rel2, sym))
+    t2c = re.sub(r"\(\s*XMLByte\s*\)", "", t2)
+    for nm in ("BOM_utf8", "BOM_utf16be", "BOM_utf16le", "BOM_ucs4be", "BOM_ucs4le"):
+        v = array_init(t2c, nm, rel2)
+        if v[-1] != 0:
+            raise TranslateError(nm + " not terminated")
+        out += lean_list(nm, v[:-1])
+    # character classes used by the formatter / ensureValidString (ranges of 16-bit units per mask)
+    rel3 = "util/XMLChar.cpp"
+    t3 = src(rel3)
+    hh = strip_c_comments(src("util/XMLChar.hpp"))
+    masks = {}
+    for nm in ("gControlCharMask", "gXMLCharMask", "gWhitespaceCharMask", "gFirstNameCharMask", "gNameCharMask"):
+        m = re.search(r"\b%s\s*=\s*(0x[0-9A-Fa-f]+)\s*;" % nm, hh)
+        if not m:
+            raise TranslateError(nm + " not found in XMLChar.hpp")
+        masks[nm] = int(m.group(1), 16)
+    for ver, tn in (("10", "fgCharCharsTable1_0"), ("11", "fgCharCharsTable1_1")):
+        tb = array_init(t3, tn, rel3)
+        if len(tb) != 0x10000:
+            raise TranslateError("%s has %d entries" % (tn, len(tb)))
+        out += _lean_pairs("xmlChar" + ver, _mask_ranges(tb, masks["gXMLCharMask"]))
+        out += _lean_pairs("control" + ver, _mask_ranges(tb, masks["gControlCharMask"]))
+        out += _lean_pairs("whitespace" + ver, _mask_ranges(tb, masks["gWhitespaceCharMask"]))
+        out += _lean_pairs("firstNameChar" + ver, _mask_ranges(tb, masks["gFirstNameCharMask"]))
+        out += _lean_pairs("nameChar" + ver, _mask_ranges(tb, masks["gNameCharMask"]))
+    out += "\nend XV.Gen.Escapes\n"
+    return out
